@@ -46,7 +46,7 @@ type job struct {
 func TestC02(t *testing.T) {
 	world.Quiet()
 	run := rep.New("C02", "fault_enumeration",
-		"every assignment of a fault script (ok, refuse, reset/eof/garbage before headers, close/reset after headers and after k body bytes with Content-Length and chunked framing, truncated chunked / Content-Length bodies, backend 4xx/5xx; thorough: stalls, large and SSE bodies) to 1..2 endpoints exhaustively and to 3 endpoints by seeded sample (thorough: exhaustively for a reduced menu), per engine (thorough: x balancer), over the proxy route, a provider route and Anthropic passthrough; origin-tagged statuses/headers/bodies; oracle: single origin, contiguous in-order records, never more than that attempt wrote, full body if it completed, no attempt started after the delivered attempt's first byte; plus a concurrent phase: 16 senders keep requests with per-request fault scripts (keyed by nonce) in flight through one 3-endpoint stack per engine x balancer while endpoints are re-admitted, and every response must additionally be an attempt made for that very request (pooled buffers / connections never leak one request's response into another). distinct = distinct (engine, balancer, fault assignment)")
+		"every assignment of a fault script (ok, refuse, reset/eof/garbage before headers, close/reset after headers and after k body bytes with Content-Length and chunked framing, truncated chunked / Content-Length bodies, backend 4xx/5xx; thorough: stalls, large and SSE bodies) to 1..2 endpoints exhaustively and to 3 endpoints by seeded sample (thorough: exhaustively for a reduced menu), per engine (thorough: x balancer), over the proxy route, a provider route and Anthropic passthrough; origin-tagged statuses/headers/bodies; oracle: single origin, contiguous in-order records, never more than that attempt wrote, full body if it completed, no attempt started after the delivered attempt's first byte; plus (olla) cases that begin by skipping an endpoint whose engine circuit is open, followed by a failure after the response started and a healthy third endpoint; plus a concurrent phase: 16 senders keep requests with per-request fault scripts (keyed by nonce) in flight through one 3-endpoint stack per engine x balancer while endpoints are re-admitted, and every response must additionally be an attempt made for that very request (pooled buffers / connections never leak one request's response into another). distinct = distinct (engine, balancer, fault assignment)")
 	run.Assume("fault-script backends answer with Connection: close and requests are non-idempotent POSTs, so every backend record is exactly one Olla attempt (Go's transport never replays them itself)")
 	run.Assume("whether a truncated backend body must surface to the client as an error is not judged (counted as silent_truncations)")
 	rng := rand.New(rand.NewSource(rep.Seed()))
@@ -119,6 +119,8 @@ func TestC02(t *testing.T) {
 	close(ch)
 	wg.Wait()
 	concurrentPhase(run, rng)
+	openBreakerPhase(run)
+	run.Require("open_breaker_cases_judged", 10)
 	run.Require("concurrent_cases_with_response_judged", int64(rep.Pick(160, 1600)/map[bool]int{true: 4, false: 1}[rep.Mode() == "race"]))
 	run.Require("cases_with_response_judged", int64(rep.Pick(400, 5000)/map[bool]int{true: 4, false: 1}[rep.Mode() == "race"]))
 	run.Require("cases_after_started_response_failed", 20)
@@ -153,6 +155,60 @@ func runChunk(run *rep.Run, j job, cases [][]fw.Fault, id int) {
 			run.Count("judged_with_backend_response/"+[]string{"proxy", "provider", "proxy", "anthropic-passthrough"}[(id+ci)%4], 1)
 		}
 		f.Readmit()
+	}
+}
+
+// openBreakerPhase (olla engine): the preferred endpoint is healthy in the repository but its
+// engine circuit is open, so the request starts by *skipping* an endpoint; the next one fails
+// after its response has started, and a third one is fine. The skip must not make the later
+// failure look like "nothing was sent".
+func openBreakerPhase(run *rep.Run) {
+	after := []fw.Fault{{Kind: "cut_close", CutAt: 0}, {Kind: "cut_reset", CutAt: 0}, {Kind: "cut_close", CutAt: 200}, {Kind: "cut_reset", CutAt: 639, Chunked: true}, {Kind: "trunc_chunked"}, {Kind: "trunc_cl"}}
+	third := []fw.Fault{{Kind: "ok"}, {Kind: "ok", Chunked: true}}
+	id := 0
+	for _, g := range third {
+		f, err := fw.New(fw.Opt{Engine: "olla", Balancer: "priority", N: 3, ReadTimeout: 1 * time.Second})
+		if err != nil {
+			run.Inconclusive("world failed to start: " + err.Error())
+			return
+		}
+		hc := world.NewClient(false, 6*time.Second)
+		// open b0's engine breaker: five hang-ups before any answer, with b1 and b2 out of the
+		// candidate set (failing health round), so that their own breakers stay closed
+		f.B[1].SetHealth(500, "")
+		f.B[2].SetHealth(500, "")
+		f.W.ForceHealth()
+		hits := 0
+		for i := 0; i < 8 && hits < 5; i++ {
+			c := f.Run(hc, fmt.Sprintf("ob%dt%d", id, i), []fw.Fault{{Kind: "eof_before_headers"}, {Kind: "ok"}, {Kind: "ok"}}, "", nil, nil)
+			hits += len(c.Attempts)
+		}
+		f.Readmit()
+		if hits < 5 || f.W.Statuses()["b0"] != "healthy" {
+			run.Inconclusive("could not open b0's engine breaker while keeping it healthy")
+			f.Close()
+			continue
+		}
+		for _, a := range after {
+			id++
+			c := f.Run(hc, fmt.Sprintf("ob%dc", id), []fw.Fault{{Kind: "ok"}, a, g}, "", nil, nil)
+			c.Balancer += "/b0-circuit-open"
+			skipped := true
+			for _, at := range c.Attempts {
+				if at.Backend == 0 {
+					skipped = false
+				}
+			}
+			if !skipped {
+				run.Inconclusive("b0 was contacted although its breaker should be open")
+				continue
+			}
+			before := run.Get("cases_with_response_judged")
+			judge(run, c)
+			run.Count("open_breaker_cases_judged", run.Get("cases_with_response_judged")-before)
+			f.Readmit() // health only: the engine breaker of b0 stays open
+		}
+		f.Close()
 	}
 }
 
